@@ -341,6 +341,24 @@ def extract_fn(relpath, impl_header, name, opts, spec_text, loops, hints, substs
     for off, text in sorted(inserts, key=lambda t: (-t[0], 0 if t[1] == " }" else 1)):
         body = body[:off] + text + body[off:]
 
+    if opts.get("mutself"):
+        # `fn f(mut self, ..) { B }`  ->  `fn f(self, ..) { let mut verif_self = self; B[self := verif_self] }`
+        if not re.search(r"\(\s*mut\s+self\b", sig):
+            raise AnchorError(f"{name}: option mutself but the receiver is not `mut self`")
+        sig = re.sub(r"\(\s*mut\s+self\b", "(self", sig, count=1)
+        sig_masked = rustlex.mask(sig)
+        bm = rustlex.mask(body)
+        out, last = [], 0
+        for m in re.finditer(r"\bself\b", bm):
+            out.append(body[last:m.start()])
+            out.append("verif_self")
+            last = m.end()
+        out.append(body[last:])
+        body = "".join(out)
+        ob0 = body.index("{")
+        body = body[:ob0 + 1] + "\n        let mut verif_self = self;" + body[ob0 + 1:]
+        rw.add("mut-self-rebound", "`fn f(mut self, ..)` -> `fn f(self, ..) { let mut verif_self = self; .. }` with `self` renamed in "
+               "the body (Verus does not support `mut self`; same semantics)")
     if "ret" in opts:
         sig = _name_return(sig, sig_masked, opts["ret"], rw)
     if "addgen" in opts:
